@@ -116,7 +116,14 @@ func (e *Engine) loadLoc(st *State, l loc, t types.Type) Val {
 		}
 		return PtrHeap{Ref: r, Root: u.Elem()}
 	case *types.Slice:
-		return SliceV{Base: st.leafGet(l, "base", 64), Off: st.leafGet(l, "off", 64), Len: st.leafGet(l, "len", 64), Cap: st.leafGet(l, "cap", 64), Elem: u.Elem()}
+		sl := SliceV{Base: st.leafGet(l, "base", 64), Off: st.leafGet(l, "off", 64), Len: st.leafGet(l, "len", 64), Cap: st.leafGet(l, "cap", 64), Elem: u.Elem()}
+		if !st.spec {
+			// type invariant of every Go slice value, wherever it is stored
+			zero, lim := BVu(0, 64), BVu(1<<40, 64)
+			st.assumeT(And(SLe(zero, sl.Off), SLt(sl.Off, lim), SLe(zero, sl.Len), SLe(sl.Len, sl.Cap), SLt(sl.Cap, lim),
+				Implies(Eq(sl.Base, zero), Eq(sl.Cap, zero))))
+		}
+		return sl
 	case *types.Basic:
 		if isString(t) {
 			ln := st.leafGet(l, "len", 64)
